@@ -62,7 +62,7 @@ if rc:
 
 # forbidden constructs
 grep_hits = []
-rcg, gout = sh(r"grep -rnE 'sorry|admit|^axiom |native_decide|bv_decide|implemented_by|unsafe |maxHeartbeats 0' --include=*.lean JenVerif Driver.lean | grep -v '^[^:]*:[0-9]*:\s*--' || true", cwd=LEAN)
+rcg, gout = sh(r"(grep -rnwE 'sorry|admit|native_decide|bv_decide|implemented_by|unsafe' --include=*.lean JenVerif Driver.lean; grep -rnE '^axiom |maxHeartbeats 0' --include=*.lean JenVerif Driver.lean) | grep -v '^[^:]*:[0-9]*:\s*--' || true", cwd=LEAN)
 for l in gout.splitlines():
     if "/Gen/" in l: continue
     txt = l.split(":", 2)[2] if l.count(":") >= 2 else l
